@@ -256,6 +256,21 @@ enum Op {
 """,
     },
     "C++": {
+        "constructors": """class Point : public Shape {
+public:
+    Point(int x, int y) : Shape(name(x, y)), x_(x), y_(y) {
+        init();
+    }
+    int x() { return x_; }
+};
+
+Circle::Circle(double d)
+    : x_(round(d)),
+      r_(d / 2)
+{
+    init();
+}
+""",
         "disabled-regions": """int one() { return 1; } int two() { return 2; }
 int with_disabled(int a) {
 #if 0
